@@ -241,7 +241,7 @@ CHECKS = {
        "the correspondence; as a statement about ALL histories it is FALSE of the faithful model and of the code, and its refutation is "
        "proved, and so are, BETWEEN TWO LIBRARY ENDPOINTS, 'the counter is the number of exchanges in flight, never above the peer's "
        "Receive Maximum, no step is Receive Maximum exceeded, and the vacancy returns to M' for every schedule with several exchanges in "
-       "flight (C12_counter_is_exchanges_in_flight) and for every sequential run (C12_vacancy_returns_after_sequence) (C12_count_exact_refuted_*: three histories of a fresh object inside the application contract after which the vacancy is the "
+       "flight (C12_counter_is_exchanges_in_flight; with both sides publishing at once C12_two_way_counters) and for every sequential run (C12_vacancy_returns_after_sequence) (C12_count_exact_refuted_*: three histories of a fresh object inside the application contract after which the vacancy is the "
        "full maximum while a stored, accepted PUBLISH of this connection is still awaited) - these are the known findings F-12b, F-12c, "
        "F-12d, reported as KNOWN-FINDING; any other discrepancy is a violation.",
   ref="DESIGN.md §3 C12, §4 F-12b, §10.4 F-12c F-12d",
